@@ -92,6 +92,7 @@ type pathCtx struct {
 	phKeys  map[string]string
 	stdout  []string
 	known   map[int]bool
+	prune   bool
 	panicSeen  bool
 	panicStack string
 }
